@@ -148,6 +148,9 @@ def _main(args):
 
     # ---- tie 1: extractor -------------------------------------------------------------
     ex = extract.run()
+    # only the extractor sections this property's model uses count as its broken tie
+    used = tuple(ent.get('extract', ['Extracted']))
+    ex['problems'] = [p for p in ex['problems'] if p.split('/')[0] in used]
     # ---- R1: build + audit --------------------------------------------------------------
     model_targets = ent.get('model_modules', [])
     proof_targets = ent.get('proof_modules', [])
